@@ -96,6 +96,28 @@ pub fn captured_mode(c: &bcder::Captured) -> u8 {
 
 pub fn run(em: &mut Emitter, rng: &mut Rng, thorough: bool) {
     let ctxs = [Ctx::Top, Ctx::Definite, Ctx::Indefinite];
+    // a mode switch made inside a capture stays inside it: what follows the captured value is read under the
+    // rules of the enclosing decoder (a BOOLEAN 0x01 and a non-minimal length are BER-only)
+    for mode in 0..3u8 { for inner_mode in 0..3u8 { for ctx in ctxs {
+        if !ctx_ok(mode, ctx) { continue }
+        for tail in [&[0x01u8, 0x01, 0x01][..], &[0x01, 0x01, 0xff], &[0x01, 0x81, 0x01, 0xff]] {
+            let mut inner = vec![0x04u8, 0x01, 0xaa]; inner.extend_from_slice(tail);
+            let data = wrap(ctx, &inner);
+            for body in [vec![Prog::SetMode(inner_mode), Prog::Take { opt: false, kind: 0, exp: None, body: Body::Generic }], vec![Prog::SetMode(inner_mode)]] {
+                let first_read = body.len() == 2;
+                let mut ps = vec![Prog::Capture(body)];
+                if !first_read { ps.push(Prog::Take { opt: false, kind: 0, exp: None, body: Body::Generic }); }
+                ps.push(Prog::Take { opt: false, kind: 1, exp: Some((0, 1)), body: Body::Typed(10) });
+                ps.push(Prog::ReadAll);
+                let ps = in_ctx(ctx, ps);
+                let strict_ok = tail == [0x01, 0x01, 0xff];
+                prog_case(em, 1101, mode, &ps, &data, move |obs| {
+                    let accepted = obs.first() == Some(&0);
+                    if accepted == (mode == 0 || strict_ok) { Oracle::Pass } else { Oracle::Fail("what-follows-a-capture-is-read-under-the-mode-set-inside-it".into()) }
+                }, true);
+            }
+        }
+    }}}
     for _ in 0..(if thorough { 200_000 } else { 5_000 }) {
         let mode = rng.below(3) as u8;
         let ctx = *rng.pick(&ctxs);
